@@ -21,6 +21,7 @@ fn main() {
     let mut batches: u64 = 1;
     let mut only_batch: Option<u64> = None;
     let mut careful = false;
+    let mut no_min = false;
     let mut single: Option<String> = None;
     let mut i = 2;
     while i < args.len() {
@@ -58,6 +59,11 @@ fn main() {
                 i += 1;
             }
             "--careful" => careful = true,
+            "--no-min" => no_min = true,
+            "--version-probe" => {
+                println!("usage: vcheck <Cxx> ... (version probe)");
+                std::process::exit(0);
+            }
             "--single" => {
                 single = Some(args[i + 1].clone());
                 i += 1;
@@ -109,6 +115,6 @@ fn main() {
     }
     let scale: f64 = std::env::var("VERIF_SCALE").ok().and_then(|s| s.parse().ok()).unwrap_or(1.0);
     let evidence_path = evidence.unwrap_or_else(|| format!("{verif_dir}/evidence/{id}.json"));
-    let o = RunOpts { tier, seed, scale, flavour, verif_dir, evidence_path, nshards };
+    let o = RunOpts { tier, seed, scale, flavour, verif_dir, evidence_path, nshards, enforce_min: !no_min };
     std::process::exit(run_prop(p.as_ref(), &o));
 }
